@@ -237,6 +237,7 @@ theorem allocChecks_ok {c s k lt tr df tok even fam env tcp reqPort newTok f g}
     split at h; · cases h
     split at h; · cases h
     split at h; · cases h
+    split at h; · cases h
     rename_i hfam
     split at h; · cases h
     split at h; · cases h
